@@ -157,6 +157,46 @@ class Acc(object):
         return a + 1
 
 
+def make_namesake(variant):
+    """classes made by one factory: same module, same __name__, different abilities (what a proxy may do must follow the
+    object's own class, not whichever class of that name the connection saw first)"""
+    if variant == "rich":
+        class Box(object):
+            def __init__(self):
+                self.items = [1, 2, 3]
+
+            def __len__(self):
+                return len(self.items)
+
+            def __getitem__(self, i):
+                return self.items[i]
+
+            def __iter__(self):
+                return iter(self.items)
+
+            def __contains__(self, x):
+                return x in self.items
+
+            def __call__(self):
+                return "called"
+
+            def __neg__(self):
+                return -len(self.items)
+    else:
+        class Box(object):
+            def __init__(self):
+                self.items = [1, 2, 3]
+
+            def size(self):
+                return len(self.items)
+    return Box
+
+
+NAMESAKE_OPS = [("len", lambda x: len(x)), ("getitem", lambda x: x[0]), ("iter", lambda x: list(x)), ("contains", lambda x: 2 in x),
+                ("call", lambda x: x()), ("neg", lambda x: -x), ("callable", lambda x: callable(x)), ("bool", lambda x: bool(x)),
+                ("size", lambda x: x.size()), ("items", lambda x: list(x.items))]
+
+
 class Gen(object):
     """a real generator plus a counter of the items it has handed out"""
 
@@ -442,6 +482,10 @@ class World(object):
                 world.made = (x, h)
                 return x
 
+            def exposed_namesake(self, variant):
+                world.namesake = make_namesake(variant)()
+                return world.namesake
+
             def exposed_classes(self):
                 return (Acc, collections.deque, io.BytesIO, type(make_target("gen", 0)[0]))
         conf = dict(CONFIGS[cfgname])
@@ -670,6 +714,7 @@ def main():
         for w in list(worlds.values()) + list(cworlds.values()):
             w.close()
     validate_walks(chk, traces)
+    namesake_part(chk, None)
     buffiter_part(chk, rnd)
     chk.cov["rows_executed"] = nrows
     chk.cov["walks"] = nwalks
@@ -682,6 +727,40 @@ def main():
                         "holder's side)"]
     return chk.finish(rule="evaluations = operations executed through a real proxy and on a local twin; distinct = (kind, state, "
                       "operation, configuration) rows and walks", exhaustive=chk.thorough)
+
+
+def namesake_part(chk, worlds):
+    """beyond the specification's vocabulary (judged by the twin alone): two classes with the same qualified name, instances of
+    both proxied on one connection, in both orders"""
+    for cfgname in ("classic", "public"):
+        for order in (("rich", "plain"), ("plain", "rich")):
+            import rpyc
+            w = World(cfgname)
+            try:
+                a = w.pair.a
+                get = a.call(lambda: a.conn.root.namesake)
+                for variant in order + order:
+                    proxy = a.call(lambda: get(variant))
+                    twin = make_namesake(variant)()
+                    for name, fn in NAMESAKE_OPS:
+                        pk, pv = w.run(lambda: fn(proxy))
+                        tk, tv = local_run(lambda: fn(twin))
+                        chk.evaluated()
+                        chk.distinct(("namesake", cfgname, order, variant, name))
+                        ok = (pk == tk) and ((pv == tv) if pk == "ok" else (type(pv).__name__ == type(tv).__name__))
+                        if cfgname != "classic" and pk == "exc" and type(pv).__name__ == "AttributeError" and "cannot access" in str(pv):
+                            continue            # refused by the configuration: outside the claim
+                        if not ok:
+                            chk.violation("namesake:%s" % name, "C02 [%s configuration] two classes named alike, instances proxied in the "
+                                          "order %s: %s on the %s one gives %s through the proxy, %s on the target itself" % (
+                                              cfgname, "/".join(order), name, variant,
+                                              (type(pv).__name__ if pk == "exc" else repr(pv)), (type(tv).__name__ if tk == "exc" else repr(tv))),
+                                          {"namesake": [cfgname, list(order), variant, name]})
+                        else:
+                            chk.validated()
+                    del proxy
+            finally:
+                w.close()
 
 
 def validate_walks(chk, traces):
